@@ -437,13 +437,19 @@ KEY_LAYOUTS = {
     'B': (0.25, [5, 7], [0.10, 0.16]),
     'C': (0.20, 4, 0.27),
     'D': (0.30, [3, 8], [0.12, 0.12]),
+    # absolute layouts, in samples: every shared radius is an exact integer multiple of dx, so with radial_gap == 0 samples sit
+    # exactly ON a shared radius (on-axis samples and Pythagorean points (3,4), (6,8), (5,12), (9,12), (7,24), (15,20))
+    'E': (10.0, [6, 6, 12], [5.0, 5.0, 10.0], 'abs'),      # radii 5, 10, 15, 25
+    'F': (6.0, [4, 8], [2.0, 8.0], 'abs'),                 # radii 3, 5, 13
 }
 
 
 def key_setup(case, R):
     n0, n1, dx = case['n0'], case['n1'], case['dx']
-    ccd_f, segs, rr = KEY_LAYOUTS[case['layout']]
+    ccd_f, segs, rr = KEY_LAYOUTS[case['layout']][:3]
     scale = min(n0, n1) * dx * case['fill']
+    if len(KEY_LAYOUTS[case['layout']]) == 4:
+        scale = dx * case['fill']
     ccd = ccd_f * scale
     rings = len(segs) if isinstance(segs, list) else 1
     rr_arg = [v * scale for v in rr] if isinstance(rr, list) else rr * scale
@@ -519,9 +525,11 @@ def run_keystone(case, seed, R):
     outer = rc
     k = 0
     negrot = False
+    onshared = bool(g == 0 and (r == rc).any())
     for ns, lr, ro in zip(S['segl'], S['rrl'], S['rotl']):
         inner = outer + g
         outer = inner + lr
+        onshared = onshared or bool(g == 0 and (r == outer).any())
         arc = 2 * np.pi / ns
         if ro is None:
             ro = 360.0 / ns      # documented default: one segment pitch
@@ -560,7 +568,15 @@ def run_keystone(case, seed, R):
     over = (count > 1) & ~allband
     R.expect(not over.any(), 'keystone:overlap',
              f'{int(over.sum())} samples outside the band belong to more than one segment, e.g. {np.argwhere(over)[:3].tolist()}')
+    # the band decides WHICH segment owns a sample on a shared radius / seam, never HOW MANY: the radial intervals are half open
+    # and the angular ones open, so no sample at all may be counted twice
+    R.expect(int(count.max(initial=0)) <= 1, 'keystone:double-owned-boundary-sample',
+             f'{int((count > 1).sum())} samples (on a shared boundary) belong to more than one segment, e.g. (row, col) '
+             f'{np.argwhere(count > 1)[:4].tolist()} at radii {r[count > 1][:4].tolist()}')
     amp = S['amp']
+    R.expect(not (amp & (count != 1)).any(), 'keystone:double-owned-boundary-sample',
+             'a transmitting sample on a shared boundary is not in exactly one segment')
+    R.outcome('on-shared-radius' if onshared else 'no-sample-on-shared-radius')
     R.expect(not (amp & ~union).any(), 'keystone:amp-outside-segments',
              f'{int((amp & ~union).sum())} transmitting samples belong to no segment, e.g. {np.argwhere(amp & ~union)[:3].tolist()}')
     R.expect(not (amp & (count != 1) & ~allband).any(), 'keystone:amp-not-exactly-one', 'a transmitting sample is not in exactly one segment')
@@ -622,6 +638,18 @@ def run_keystone_opd(case, seed, R):
     cond = (np.abs(A) @ np.abs(coefs.ravel())).reshape(n0, n1)
     R.expect_close(got, want, 1e3 * EPS * (cond + 1e-300), 'keystone:opd-nonlinear', 'compose_opd(c) vs sum_k c_k compose_opd(e_k)')
     check_scaling(R, lambda c: R.call(ap.compose_opd, c[0], c[1:], sig='keystone:compose_opd:exception'), A, ns, nm, coefs, (n0, n1), 'keystone')
+    # a unit piston on EVERY segment is an OPD of exactly 1 on every transmitting sample -- never 2 on a shared radius
+    ones = np.zeros((ns, nm))
+    ones[:, 0] = 1.0
+    allp = R.call(ap.compose_opd, ones[0], ones[1:], sig='keystone:compose_opd:exception')
+    if allp is not FAILED:
+        try:
+            allp = np.asarray(allp, dtype=float)
+            okp = allp.shape == (n0, n1) and bool((allp[S['amp']] == 1).all()) and bool(((allp == 0) | (allp == 1)).all())
+            where = np.argwhere((allp != 0) & (allp != 1))[:4].tolist() if allp.shape == (n0, n1) else []
+        except Exception:   # noqa
+            okp, where = False, []
+        R.expect(okp, 'keystone:opd-piston-sum', f'unit piston on every segment does not compose to exactly 1 on the aperture; values other than 0/1 at {where}')
     again = R.call(ap.compose_opd, coefs[0], coefs[1:], sig='keystone:compose_opd:exception')
     R.expect_equal(again, got if got is not FAILED else want, 'keystone:opd-stateful', 'second identical compose_opd call')
     R.nontrivial(bool(A.any()))
@@ -1067,6 +1095,11 @@ def plan(tier, seed):
     hex_cases += [{'n0': n[0], 'n1': n[1], 'dx': 1.0, 'rings': r, 'diam': HEX_DIAM[r][0], 'gap': g, 'angle': a, 'exclude': e}
                   for r in (1, 2, 3) for n in ([[48, 48], [49, 49]] if quick else [[48, 48], [49, 49], [64, 65]]) for g in (0.0, 3.3)
                   for a in (90, 0) for e in excl_sets_ring_edges(r)]
+    # large segments: window half-widths that scale with the segment (threshold alphabet; a few geometries only)
+    large = [[43, 0, 30.0], [43, 0, 36.5], [83, 1, 21.0], [83, 0, 45.0], [103, 2, 16.0], [103, 1, 30.0], [128, 2, 21.0], [129, 2, 21.0],
+             [128, 1, 30.0], [129, 1, 45.0], [128, 0, 45.0], [129, 0, 45.0]]
+    large_cases = [{'n0': n, 'n1': n, 'dx': dx, 'rings': r, 'diam': d, 'gap': g, 'angle': a, 'exclude': []}
+                   for n, r, d in large for dx in (1.0, 0.1) for g in (0.0, 1.0) for a in (90, 0)]
     opd_grids = [[48, 48], [49, 49], [40, 57]] if quick else [[48, 48], [49, 49], [64, 64], [65, 65], [40, 57], [57, 40]]
     opd_cases = [{'n0': n[0], 'n1': n[1], 'dx': dx, 'rings': r, 'diam': HEX_DIAM[r][1], 'gap': g, 'angle': a, 'exclude': e,
                   'basis': b, 'norm': nr}
@@ -1081,9 +1114,14 @@ def plan(tier, seed):
                  for lay in ('A', 'B', 'C', 'D') for n in grids for dx in dxs for fill in (1.0, 1.45)
                  for g in GAPS for agp in ((None, 2.0) if quick else (None, 0.0, 2.0)) for rot in rots
                  if not (isinstance(rot, list) and lay == 'C')]
+    key_cases += [{'n0': n[0], 'n1': n[1], 'dx': dx, 'layout': lay, 'fill': 1.0, 'gap': 0.0, 'agap': agp, 'rot': rot}
+                  for lay in ('E', 'F') for n in [[64, 64], [65, 65], [49, 49], [48, 65]] for dx in (1.0, 0.5)
+                  for agp in (None, 2.0) for rot in (None, 0, 10, -10)]
     kopd_cases = [{'n0': n[0], 'n1': n[1], 'dx': 1.0, 'layout': lay, 'fill': fill, 'gap': g, 'agap': None, 'rot': rot, 'basis': b}
                   for lay in ('A', 'B') for n in ([[48, 48], [49, 49]] if quick else [[48, 48], [49, 49], [48, 65], [65, 64]])
                   for fill in (1.0, 1.45) for g in (0.0, 3.3) for rot in (None, 10) for b in ('rt', 'xy')]
+    kopd_cases += [{'n0': n, 'n1': n, 'dx': dx, 'layout': lay, 'fill': 1.0, 'gap': 0.0, 'agap': None, 'rot': rot, 'basis': 'rt'}
+                   for lay in ('E', 'F') for n in (64, 65) for dx in (1.0, 0.5) for rot in (None, 10)]
 
     offs = [[0.0, 0.0], [3.3, -2.1], [-7.0, 5.0]]
     circ_cases = [{'prim': p, 'n0': n[0], 'n1': n[1], 'dx': dx, 'cx': c[0], 'cy': c[1]}
@@ -1098,7 +1136,7 @@ def plan(tier, seed):
     poly_cases += [{'n0': n[0], 'n1': n[1], 'dx': 1.0, 'sides': s, 'rot': 0, 'cx': 0.0, 'cy': 0.0, 'defaults': True}
                    for s in range(3, 9) for n in grids]
     spid_cases = [{'n0': n[0], 'n1': n[1], 'dx': dx, 'vanes': v, 'rot': rot, 'rad': rad, 'cx': c[0], 'cy': c[1]}
-                  for v in range(1, 7) for n in grids for dx in dxs for rot in (0, 30, 90, 45.5, -20) for rad in (False, True) for c in offs]
+                  for v in range(1, 7) for n in grids for dx in dxs for rot in (0, 30, 90, 45.5, -20, -100, 200, 400) for rad in (False, True) for c in offs]
     fil_cases = [{'n0': n[0], 'n1': n[1], 'dx': dx, 'rot': rot, 'aspect': asp, 'fillet': f, 'cx': c[0], 'cy': c[1]}
                  for n in grids for dx in dxs for rot in (0, 30, 90) for asp in (1.0, 0.6) for f in (0.3, 1.0) for c in offs[:2]]
 
@@ -1111,6 +1149,10 @@ def plan(tier, seed):
                   'ids and count 1+3r(r+1)-|excl|, centres at the documented positions, every segment raster == analytic hexagon outside the 1e-9 band, '
                   'pairwise disjoint, amp == union, area within the boundary-pixel bound, local_coords; non-trivial when the aperture is neither empty nor full',
                   reset=rs),
+        ScopeUnit('hex_large', large_cases, run_hex,
+                  f'large-segment threshold alphabet (grid, rings, flat-to-flat samples) in {large} x dx {{1, 0.1}} x gap {{0, 1}} x both angles, rings 0 = centre segment alone: '
+                  'same oracles as hex_tiling; exercises window sizes that scale with the segment (a window derived from the flat-to-flat half-width instead of the vertex radius '
+                  'only clips beyond ~16..30 samples); a few geometries only, not a closed product', reset=rs),
         ScopeUnit('hex_opd', opd_cases, run_hex_opd,
                   'grids x dx x rings x gap {0, 3.3} x both angles x 4 exclusion sets x basis {Cartesian monomials, polar r^n cos/sin} x normalisation {default, explicit}: '
                   'the full operator matrix of compose_opd over the (segment, mode) basis: support of every column inside its own segment, piston column == segment indicator, '
@@ -1119,7 +1161,8 @@ def plan(tier, seed):
         ScopeUnit('keystone_tiling', key_cases, run_keystone,
                   f'grids x dx x layouts {sorted(set(c["layout"] for c in key_cases))} (segments per ring / ring widths, scalar and per-ring forms) x fill {{fits, overflows the grid}} x radial gap {GAPS} x azimuthal gap '
                   'x rotation_per_ring {None, 0, 10, [0,17.5], 100, -10}: count, every segment raster == analytic annular sector outside the band, pairwise disjoint, amp inside the union and each amp '
-                  'sample in exactly one segment, amp == union minus seam strips, areas within the boundary-pixel bound', reset=rs),
+                  'sample in exactly one segment, amp == union minus seam strips, areas within the boundary-pixel bound; plus absolute layouts E (radii 5,10,15,25 samples) and F (3,5,13) '
+                  'with radial_gap exactly 0 and dx in {1, 0.5}, where on-axis and Pythagorean samples lie exactly ON a shared radius: no sample may be owned twice (the band never applies to the count)', reset=rs),
         ScopeUnit('keystone_opd', kopd_cases, run_keystone_opd,
                   'layouts A,B x grids x fill x gap x rotation x basis {polar, Cartesian}: operator matrix of compose_opd over (centre + segments, mode): confinement, piston, linearity, homogeneity over the scale alphabet {1e-3, 1e-9, 1e-12, -1e-9} and a mixed-scale array, repeatability', reset=rs),
         ScopeUnit('prim_circle', circ_cases, run_circle,
@@ -1131,7 +1174,7 @@ def plan(tier, seed):
         ScopeUnit('prim_polygon', poly_cases, run_polygon,
                   f'regular_polygon sides 3..8 x rotation {{0, 90, 15, 37.3, -20, 180}} x offsets x sorted radii {POLY_R} (plus the all-defaults call): half-plane membership outside the band, monotone growth, symmetry', reset=rs),
         ScopeUnit('prim_spider', spid_cases, run_spider,
-                  f'spider vanes 1..6 x rotation {{0, 30, 90, 45.5, -20}} (degrees and radians forms) x offsets x sorted widths {SPID_W}: membership of the transmitting part, monotone shrinking, symmetry', reset=rs),
+                  f'spider vanes 1..6 x rotation {{0, 30, 90, 45.5, -20, -100, 200, 400}} (each in the degrees and in the radians form, so negative and > 2 pi radian rotations are called directly) x offsets x sorted widths {SPID_W}: membership of the transmitting part, monotone shrinking, symmetry', reset=rs),
         ScopeUnit('prim_fillet', fil_cases, run_fillet,
                   'rectangle_with_corner_fillets x rotation {0, 30, 90} x aspect x fillet fraction x offsets x sorted sizes: rounded-rectangle membership with the chord sagitta added to the band at the corners, monotone growth', reset=rs),
     ]
